@@ -51,6 +51,17 @@ fn read_section(sh: &Shared, m: usize, k: u32, cell: &Tracked<u64>) {
     if sh.writers[m].get() != 0 {
         sched::fail("exclusion|read-with-writer", format!("a read guard of lock {m} exists together with a write guard"));
     }
+    if sh.readers[m].get() >= 2 {
+        // reach: readers really share the lock
+        sim().unwrap().count("probe.two_read_guards_at_once");
+    }
+    if k == 0 {
+        // a section without accesses still lasts for a while: others may run inside it
+        sched::yield_now();
+        if sh.writers[m].get() != 0 {
+            sched::fail("exclusion|read-with-writer", format!("a read guard of lock {m} exists together with a write guard"));
+        }
+    }
     for _ in 0..k {
         let v = cell.read();
         if sh.writers[m].get() != 0 {
@@ -74,6 +85,10 @@ fn write_section(sh: &Shared, m: usize, k: u32, tag: u64, cell: &Tracked<u64>) {
         }
     };
     chk(sh);
+    if k == 0 {
+        sched::yield_now();
+        chk(sh);
+    }
     for i in 0..k {
         let v = cell.read();
         let nv = v.wrapping_mul(31).wrapping_add(tag * 8 + u64::from(i));
@@ -262,7 +277,20 @@ impl Check for C02 {
         sched::run(&mut sim);
         if sim.violation.is_none() {
             for m in 0..nm {
-                let got = sh.locks[m].read().peek();
+                // quiescence: every guard is gone, so the lock must admit a writer, and then a reader
+                // (a locked or waiting bit left behind would park the next write()/read() for ever;
+                // a blocking call here would hang the worker instead of reporting)
+                let Some(w) = sh.locks[m].try_write() else {
+                    sim.violate("final|left-locked", format!("lock {m} does not admit a writer after every thread has dropped its guards"));
+                    break;
+                };
+                drop(w);
+                let Some(g) = sh.locks[m].try_read() else {
+                    sim.violate("final|stale-waiting-state", format!("lock {m} does not admit a reader although nobody holds or waits for it: the next read() would park for ever"));
+                    break;
+                };
+                let got = g.peek();
+                drop(g);
                 if got != sh.model[m].get() {
                     sim.violate("visibility|final-value", format!("lock {m}: data {got} != model {}", sh.model[m].get()));
                 }
